@@ -8,6 +8,8 @@
  *   n_xer <sg> <v> | w_xer <sg> <hex>
  *   ne_oer <v> | we_oer <hex> | ne_uper <map> <ext> <ct> <v> | we_uper <map> <ext> <ct> <hex>
  *   ne_xer <map> <v> | we_xer <map> <hex>
+ *   ne_uperdec <map> <ext> <ct> <hex> | we_uperdec <map> <ext> <ct> <hex>   (uper_decode of the octets => "ok <number>" | "fail";
+ *                                      P leg only, no model op: both representations must return the encoded number)
  */
 #include "hutil.h"
 #include <asn_application.h>
@@ -17,6 +19,7 @@
 #include <ENUMERATED.h>
 #include <NativeEnumerated.h>
 #include <per_encoder.h>
+#include <per_decoder.h>
 
 struct sink { uint8_t buf[8192]; size_t n; int over; };
 static int sink_cb(const void *b, size_t n, void *k) {
@@ -220,6 +223,32 @@ int ops_c13(int argc, char **argv, FILE *out) {
             free(st.buf);
         }
         if(er.encoded < 0 || s.over) fputs("fail", out); else hx_print(out, s.buf, s.n);
+        return 1;
+    }
+    if((!strcmp(op, "ne_uperdec") || !strcmp(op, "we_uperdec")) && argc == 5) {
+        const asn_INTEGER_specifics_t *sp = mk_specs(0, argv[1], atoi(argv[2]), 1);
+        const asn_per_constraints_t *pc = mk_ct(argv[3]);
+        size_t len; uint8_t *b = hx_parse_exact(argv[4], &len);
+        if(!b) { fputs("bad-op", out); return 1; }
+        asn_TYPE_descriptor_t *td = op[0] == 'n' ? &netd : &wetd;
+        td->specifics = sp;
+        td->encoding_constraints.per_constraints = pc;
+        void *st = 0;
+        asn_dec_rval_t rv = uper_decode(0, td, &st, b, len, 0, 0);
+        if(rv.code != RC_OK || !st) fputs("fail", out);
+        else if(op[0] == 'n') fprintf(out, "ok %ld", *(long *)st);
+        else {
+            /* the INTEGER_t content octets read as a two's complement number (independent of asn_INTEGER2long) */
+            const INTEGER_t *iv = st;
+            if(iv->size == 0 || iv->size > 8) { fputs("ok octets:", out); hx_print(out, iv->buf, iv->size); }
+            else {
+                long v = (iv->buf[0] & 0x80) ? -1L : 0L;
+                for(size_t i = 0; i < iv->size; i++) v = (long)(((unsigned long)v << 8) | iv->buf[i]);
+                fprintf(out, "ok %ld", v);
+            }
+        }
+        if(st) ASN_STRUCT_FREE(*td, st);
+        free(b);
         return 1;
     }
     return 0;
